@@ -117,6 +117,10 @@ class Exec(object):
         return o
 
     def deref(self, v, st):
+        if isinstance(v, InnerRef):
+            # the dictionary stored under `key` of a two-level dictionary, read through the current state of the outer one
+            o = st.cells[v.outer.id]
+            return wrap(o.vty, z3.Select(o.get, v.key))
         return st.cells[v.id] if isinstance(v, Ref) else v
 
     def term_of(self, v, st):
@@ -890,6 +894,10 @@ def _has_quantifier(f):
         stack.extend(x.children())
     return False
 
+class InnerRef(V):
+    """d.setdefault(k, {}) of a dictionary of dictionaries: an alias of the inner dictionary stored under k (stores go to the outer cell)"""
+    def __init__(self, outer, key): self.outer, self.key = outer, key
+
 class SymKeys(V):
     """d.keys() of a symbolic dict"""
     def __init__(self, d): self.d = d
@@ -1036,6 +1044,13 @@ class StmtMixin(object):
             recv = self.ev1(target.value, st)
             r = self.deref(recv, st)
             k = self.ev1(target.slice, st)
+            if isinstance(recv, InnerRef) and isinstance(r, SymDict):
+                o = st.cells[recv.outer.id]
+                kt = self.key_term(k, st)
+                vz = self.as_fn(v, st) if r.vty.kind == 'Fn' else unwrap(self.deref(v, st))
+                inner2 = o.vty.sort().mkdict(z3.Store(r.has, kt, z3.BoolVal(True)), z3.Store(r.get, kt, vz))
+                st.cells[recv.outer.id] = SymDict(o.has, z3.Store(o.get, recv.key, inner2), o.kty, o.vty)
+                return
             if isinstance(r, PyDict):
                 kd = self.deref(k, st)
                 if isinstance(kd, PyStr):
@@ -1794,6 +1809,20 @@ class CallMixin(object):
                                    patterns=[z3.Select(nh, kq), z3.Select(ng, kq)]))
             st.cells[recv.id] = SymDict(nh, ng, r.kty, r.vty)
             return [(NONE, st)]
+        if isinstance(r, SymDict) and name == 'setdefault' and len(args) == 2 and isinstance(recv, Ref):
+            k = self.key_term(args[0], st); dflt = d[1]
+            if r.vty.kind == 'Dict':
+                if not (isinstance(dflt, PyDict) and not dflt.d): raise Unsupported('setdefault(k, non-empty dict)')
+                DS = r.vty.sort()
+                empty = DS.mkdict(z3.K(r.vty.args[0].sort(), z3.BoolVal(False)), fresh(z3.ArraySort(r.vty.args[0].sort(), r.vty.args[1].sort()), 'empty.get'))
+                ng = z3.Store(r.get, k, z3.If(z3.Select(r.has, k), z3.Select(r.get, k), empty))
+                st.cells[recv.id] = SymDict(z3.Store(r.has, k, z3.BoolVal(True)), ng, r.kty, r.vty)
+                return [(InnerRef(recv, k), st)]
+            dz = unwrap(dflt) if not isinstance(dflt, FnV) else dflt.z
+            if r.vty.kind == 'Fn': dz = self.as_fn(args[1], st)
+            ng = z3.Store(r.get, k, z3.If(z3.Select(r.has, k), z3.Select(r.get, k), dz))
+            st.cells[recv.id] = SymDict(z3.Store(r.has, k, z3.BoolVal(True)), ng, r.kty, r.vty)
+            return [(wrap(r.vty, z3.Select(ng, k)), st)]
         if isinstance(r, SymDict) and name == 'keys' and not args:
             return [(SymKeys(r), st)]
         if isinstance(r, SymDict):
